@@ -22,6 +22,9 @@ CHECKS = {
  "C04": ("refgraph", "explicit-state breadth-first search over the real H263State to a fixpoint (closed picture alphabet) plus a depth-bounded graph with real motion, every transition compared with a two-slot reference model",
          "The complete reachable state graph of the decoder for the alphabet {I, Pa, Pb, Da, Db} x TR {0,1,255} x 3 contents + rejected inputs + clean-up is explored (every operation from every state, de-duplicated on the decoder's whole state), in Sorenson and standard mode; each transition's Ok/Err, most-recent picture (pixels, TR, type, quantizer) and prediction source are compared with the model (last, reference). A second, depth-bounded graph uses real motion over noise references.",
          "Fixpoint holds for the stated alphabet (flat contents make the image space finite); state key through the cfg-gated hook; longer TR alphabets in the thorough tier.", "3.4"),
+ "C05": ("atomic", "exhaustive product of the decoder's reachable state graph (explicit-state search of C04) x failure sites x continuations, plus every byte split point of every base picture through a growable source",
+         "From every reachable decoder state (fixpoint graphs, both modes) every failure site is injected; whenever the call returns Err the complete decoder state (hooked key including the carried-over options), the most recent picture and the bits re-read from the same reader must be unchanged, a repeated failure must change nothing, and every continuation must equal a twin decoder that never saw the input. Every base picture is delivered in two parts at every byte boundary to one reader: the retry after appending must equal one-piece decoding, an early-ended success must equal the early-end model.",
+         "Conditional on Err (the evidence lists how often each site failed); failure sites are a finite menu chosen to fail at every depth (header, macroblock header, block data, prediction); state key via the cfg-gated hook.", "3.5"),
  "C07": ("yuv", "exhaustive enumeration of the finite input domain (2^24 colours x 8 code positions) against a fixed-point reference model",
          "Every one of the 16,777,216 (Y,Cb,Cr) triples is pushed through yuv420_to_rgba in every SIMD lane and every remainder slot, alone and among contrasting neighbours, and compared with a 16.16 model derived from the real BT.601 constants; the full result table is checked for monotonicity. The domain is finite, so this is a complete decision for the per-pixel formula.",
          "Trusts the model's derivation of the coefficients from the BT.601 reals and the C07 layout argument (7x1 pictures reach lanes 0..3 and remainder slots 0..2).", "3.7"),
